@@ -58,12 +58,12 @@ class Steps:
 
     def reset(self, cap=5_000_000, tick=0.0, deadline=None, sched=None):
         self.n = 0                     # all hooked steps
-        self.by = {"main": 0, "cb": 0, "re": 0, "la": 0, "lb": 0}
+        self.by = {"main": 0, "cb": 0, "re": 0, "la": 0, "lb": 0, "native": 0}
         self.cap = cap
         self.tick = tick               # virtual seconds per step (0 = clock does not move)
         self.sched = list(sched or [])  # cost profile: [(step count, new tick), ...] - the cost of a step changes during the run
         self.deadline = deadline       # virtual time after which steps count as late
-        self.late = {"main": 0, "cb": 0, "re": 0, "la": 0, "lb": 0}
+        self.late = {"main": 0, "cb": 0, "re": 0, "la": 0, "lb": 0, "native": 0}
         self.throws = 0
         self.user = None               # optional extra observer(kind, vm, a, b, c, d)
 
@@ -86,7 +86,7 @@ def _vm_hook(vm, kind, op, arg, frame):
         VCLOCK.now += s.tick
         if s.deadline is not None and VCLOCK.now > s.deadline:
             s.late[kind] += 1
-    if s.user is not None:
+    if s.user is not None and kind != "native":     # observers see instructions; a built-in run as a callback has none
         s.user(kind, vm, op, arg, frame, None)
     if s.n > s.cap:
         raise HarnessHang("step cap")
